@@ -350,3 +350,57 @@ Example C14_repaired_names_foreign :
   /\ List.map (tsd_member extd_c) tnames = [false; false; false; false]
   /\ List.map (ts_member extf_c) tnames = [false; false; false; false].
 Proof. vm_compute. repeat split; reflexivity. Qed.
+
+(* END TO END non-interference, NumbersDirect naming WITH a cleanup strategy (Flw/NumDCleanupForeign.v): the cleanup - which
+   for this naming works on a listing that contains the file being written - lists, removes and compresses family files only.
+   With arbitrary foreign files in the directory (names that numd_member rejects; the rCURRENT name is foreign here) the
+   observations are those of the run in the empty directory (snapshots modulo the foreign entries), every foreign file is
+   unchanged - neither removed nor compressed -, and all other names and contents are exactly those of the clean run *)
+Require Import FL.Flw.NumDRun FL.Flw.NumDCleanupStep FL.Flw.NumDCleanupRun FL.Flw.NumDCleanup FL.Flw.NumDCleanupForeign.
+Theorem C14_numbersdirect_cleanup_foreign_ignored c crit k t0 off foreign ops :
+  numdkcfg c crit k -> Forall basic_op ops ->
+  dside c k (nclosed (a_run None ops (snd (run (fst (step (sys0 t0 off) (OStart c))) ops)))) ->
+  NoDup (List.map fst foreign) ->
+  (forall n, In n (List.map fst foreign) -> numd_member c n = false) ->
+  let ops' := OStart c :: ops ++ [OStop] in
+  let rf := run (sys0f t0 off foreign) ops' in
+  let r0 := run (sys0 t0 off) ops' in
+  List.map (strip_obs (List.map fst foreign)) (snd rf) = snd r0
+  /\ (Forall (fun o => o <> OSnap) ops -> snd rf = snd r0)
+  /\ (forall n d, In (n, d) foreign -> file_of (wfs (s_w (fst rf))) n = Some (plain_file t0 d))
+  /\ (forall n, ~ In n (List.map fst foreign) -> file_of (wfs (s_w (fst rf))) n = file_of (wfs (s_w (fst r0))) n)
+  /\ (forall n, In n (List.map fst foreign) -> file_of (wfs (s_w (fst r0))) n = None)
+  /\ fst rf = embedx (names (fs0f t0 foreign)) (inodes (fs0f t0 foreign)) (fst r0).
+Proof. exact (numbersdirect_cleanup_foreign_ignored c crit k t0 off foreign ops). Qed.
+
+(* ... so C07_numbersdirect_cleanup carries over: what the directory with the foreign files holds after the run *)
+Theorem C14_numbersdirect_cleanup_foreign_dir c crit k n m t0 off foreign ops closed cur :
+  numdkcfg c crit k -> klimd k = Some (n, m) -> Forall basic_op ops ->
+  sfx_ok (c_spec c) ->
+  a_run None ops (snd (run (fst (step (sys0 t0 off) (OStart c))) ops)) = Some (closed, cur) ->
+  NoDup (List.map fst foreign) ->
+  (forall x, In x (List.map fst foreign) -> numd_member c x = false) ->
+  let ff := wfs (s_w (fst (run (sys0f t0 off foreign) (OStart c :: ops ++ [OStop])))) in
+  let L := length closed in let lo := S L - (n + m) in let mid := S L - n in
+  concat closed ++ cur = written ops
+  /\ (forall x, file_of ff x <> None <->
+        In x (List.map fst foreign) \/ (exists i, mid <= i <= L /\ x = rname c i)
+        \/ (exists i, lo <= i < mid /\ x = gname c i))
+  /\ (forall x d, In (x, d) foreign -> file_of ff x = Some (plain_file t0 d))
+  /\ (forall i, mid <= i < L ->
+        exists fl, file_of ff (rname c i) = Some fl /\ fdata fl = nth i closed [] /\ fgz fl = 0%N /\ fdir fl = false)
+  /\ (forall i, lo <= i < mid ->
+        exists fl, file_of ff (gname c i) = Some fl /\ fdata fl = nth i closed [] /\ fgz fl = 1%N /\ fdir fl = false)
+  /\ (exists fl, file_of ff (rname c L) = Some fl /\ fdata fl = cur /\ fgz fl = 0%N /\ fdir fl = false)
+  /\ (forall i, i < lo -> file_of ff (rname c i) = None /\ file_of ff (gname c i) = None).
+Proof. exact (numbersdirect_cleanup_foreign_dir c crit k n m t0 off foreign ops closed cur). Qed.
+
+Check C14_numbersdirect_cleanup_foreign_ignored.
+Print Assumptions C14_numbersdirect_cleanup_foreign_ignored.
+Check C14_numbersdirect_cleanup_foreign_dir.
+Print Assumptions C14_numbersdirect_cleanup_foreign_dir.
+(* non-vacuity: NumDCleanupForeign.cleanup_foreign_hypotheses_d / cleanup_foreign_instance_d / cleanup_foreign_instance_dir_d
+   (twenty foreign files, KLogGz 2 1, three rotations); the boundary - a stranger's file whose name follows the pattern is a
+   member and is cleaned up: NumDCleanupForeign.member_file_is_cleaned_d *)
+Check cleanup_foreign_instance_dir_d.
+Check member_file_is_cleaned_d.
